@@ -1189,6 +1189,13 @@ async def term_case(case, r: R):
 
 
 async def run_case(case, r: R):
+    from bumble.core import UUID
+    # cases are independent: forget the UUIDs the previous cases put into bumble's process-wide
+    # registry (it is searched linearly on every UUID.from_bytes, so it would only slow later cases)
+    n0 = getattr(run_case, '_uuids', None)
+    if n0 is None:
+        n0 = run_case._uuids = len(UUID.UUIDS)
+    del UUID.UUIDS[n0:]
     if case['kind'] == 'db':
         await db_case(case, r)
     elif case['kind'] == 'notif':
